@@ -1,12 +1,27 @@
 /-
 C20 — pixel coordinates behave as broadcast (x, y) arrays under every operation.
 
-Theorems about `Impl.PixCoord` (model of `regions/core/pixcoord.py`).  numpy broadcasting and
-indexing are a stated parameter of the model (`Impl.NP`); the first section proves the sanity
-facts about that parameter which the property theorems need (identity broadcast, in-range
-gathers, result sizes), the rest are the clauses of the property, for all shapes, all index
-expressions of the modelled language, all element values (any field / ordered field), all unit
-vectors `(c, s)`.
+Theorems about `Impl.PixCoord` (the model of `regions/core/pixcoord.py`).  numpy broadcasting and
+indexing are a stated parameter of the model (`Impl.NP`); `Lemmas/NDArr.lean` proves the facts about
+that parameter which are needed here (identity broadcast, every read in range, result sizes, the
+multi-index characterisation of the broadcast values, naturality).  Everything below is for ALL
+shapes (any rank, zero-length axes included), all index expressions of the modelled language, all
+element values of any ring / field / ordered field, and all unit vectors `(c, s)`, `c² + s² = 1`
+(= all rotation angles in all units).
+
+Clauses of the property and their theorems
+* construction: `ctor_error_iff`, `ctor_shape`, `ctor_values`, `broadcast_scalar_scalar`,
+  `ctor_scalar_iff`, `ctor_same_shape`, `ctor_array_scalar`
+* indexing: `getitem_delegates` (index-then-pair = pair-then-index, same exception),
+  `getitem_components`, `getitem_error`, `getitem_scalar`
+* length / iteration: `iter_len_agree`, `len_iter_scalar`
+* `+` / `-`: `add_componentwise`, `add_sub_inverse` (`_same`), `add_sub_type_error`, `add_sub_value_error`
+* separation: `separation_euclid` (with the point facts `Pt.sep2_euclid/_symm/_nonneg/_eq_zero_iff`)
+* rotation: `rotate_ok` (= point-wise `Pt.rotate` on the broadcast points), `rotate_isometry` (`_same`),
+  `rotate_compose`, `rotate_fixes_center`, `rotate_inverse` (`_same`), `rotate_center_dist`, `rotate_err`
+  (with `Pt.rotate_*`, `unit_mul`)
+* copies: `copy_independent` (trivial in a functional model — the real aliasing check is the harness's)
+* sky: `sky_roundtrip` (`_origin01`) under the hypothesis that the WCS maps are mutually inverse
 -/
 import RegionsVerif.Impl.PixCoord
 import RegionsVerif.Lemmas.NDArr
@@ -47,6 +62,21 @@ theorem ctor_shape (x y : NDArr α) (p : PixCoord α) (h : PixCoord.ctor x y = .
     refine ⟨s, hs, rfl, rfl, rfl, rfl, ?_, ?_, rfl⟩
     · exact broadcastTo_WF _ _ _ (by omega)
     · exact broadcastTo_WF _ _ _ (by omega)
+
+/-- **the values are the broadcast values**: at every multi-index `mi` of the result shape, the
+stored `x` (`y`) is the argument's element at the same multi-index with the stretched positions
+(argument dimension 1, or missing on the left) set to 0. -/
+theorem ctor_values (x y : NDArr α) (p : PixCoord α) (h : PixCoord.ctor x y = .ok p)
+    (mi : List Nat) (hv : ValidIdx mi p.x.shape) :
+    p.x.data[flatIdx p.x.shape mi]? = some (x.data.getD
+      (flatIdx (pad p.x.shape.length x.shape) (bproj p.x.shape (pad p.x.shape.length x.shape) mi)) 0) ∧
+    p.y.data[flatIdx p.x.shape mi]? = some (y.data.getD
+      (flatIdx (pad p.x.shape.length y.shape) (bproj p.x.shape (pad p.x.shape.length y.shape) mi)) 0) := by
+  obtain ⟨s, hs, hx, hy, hxs, -, -⟩ := ctor_shape x y p h
+  obtain ⟨hl, -, -⟩ := bshape_spec hs
+  rw [hxs] at hv ⊢
+  rw [hx, hy]
+  exact ⟨broadcastTo_get 0 x s mi hv (by omega), broadcastTo_get 0 y s mi hv (by omega)⟩
 
 /-- arguments of equal shape are stored unchanged. -/
 theorem ctor_same_shape (x y : NDArr α) (hx : x.WF) (hy : y.WF) (h : x.shape = y.shape) :
@@ -838,6 +868,9 @@ example : bshape [2, 1] [3] = some [2, 3] := by decide
 example : bshape [2, 3] [2] = none := by decide
 example : bshape [] [0, 3] = some [0, 3] := by decide
 example : bshape [3, 1, 2] [4, 1] = some [3, 4, 2] := by decide
+-- element (1, 2) of a (2,3) result comes from element (0, 2) of a (1,3) argument, flat position 2
+example : bproj [2, 3] [1, 3] [1, 2] = [0, 2] ∧ flatIdx [1, 3] [0, 2] = 2 ∧ flatIdx [2, 3] [1, 2] = 5 ∧
+    ValidIdx [1, 2] [2, 3] := ⟨rfl, rfl, rfl, by unfold ValidIdx; decide⟩
 -- the indexing parameter (negative step, integer array with a negative entry; int + slice + array
 -- with the broadcast dimension moved to the front; boolean mask; Ellipsis; the error classes)
 example : plan [2, 3] [Ix.slice none none (some (-1)), Ix.intArr [2] [0, -1]] = .ok ([2, 2], [3, 5, 0, 2]) := by decide
